@@ -24,6 +24,9 @@ type c10Case struct {
 	Hist  []string `json:"hist"`  // a0 (activate host), e1, e2 (deliver), ah (answer host), ax (answer with an error, no handler), as (error + skip handler), ar (error + retry handler: host is requested again)
 	Race  bool     `json:"race"`  // last two actions issued concurrently
 	Reps  int      `json:"reps"`
+	// Prompt: the event for boundary event 1 is delivered by the trace consumer at the very moment the host's
+	// task request is received (the earliest moment a caller knows that the activity waits for its answer)
+	Prompt bool `json:"prompt,omitempty"`
 }
 
 func c10Graph(c *c10Case) *gen.Graph {
@@ -114,6 +117,17 @@ func c10Cases(tier string, seed uint64) []fw.Case {
 			}
 		}
 	}
+	for _, host := range []string{"task", "sub"} {
+		for _, intr := range [][]bool{{true}, {false}, {false, true}} {
+			reps := 30
+			if tier == "thorough" {
+				reps = 300
+			}
+			c := c10Case{Host: host, Intr: intr, Hist: []string{"a0"}, Prompt: true, Reps: reps}
+			c.Name = fmt.Sprintf("prompt/%s/%v", host, intr)
+			cs = append(cs, fw.MkCase("prompt", &c))
+		}
+	}
 	return fw.Number(cs)
 }
 
@@ -136,7 +150,18 @@ func c10Run(c *c10Case, env *fw.Env, v *fw.V) {
 	} else {
 		perturb.Off()
 	}
-	in, err := drive.New(env.Label, defs, drive.Opts{ExtraSubs: 1})
+	opts := drive.Opts{ExtraSubs: 1}
+	if c.Prompt {
+		var once sync.Once
+		opts.OnTrace = func(in *drive.Inst, e *drive.Ev) {
+			if e.Kind == "Task" && e.Node == "th" {
+				once.Do(func() {
+					in.Go("ConsumeEvent", func() error { _, err := in.Proc.ConsumeEvent(event.NewSignalEvent("s1")); return err })
+				})
+			}
+		}
+	}
+	in, err := drive.New(env.Label, defs, opts)
 	if err != nil {
 		v.Violate("new-process-error", "error", "%v", err)
 		return
@@ -285,6 +310,21 @@ func c10Run(c *c10Case, env *fw.Env, v *fw.V) {
 		return
 	}
 	n := len(c.Hist)
+	if c.Prompt {
+		// a0, then the event arrives by itself as soon as the host's request is seen
+		do("a0")
+		apply("a0")
+		tag = "prompt-event"
+		apply("e1")
+		if !quiet("after the host was activated and the event delivered on receipt of its request") {
+			return
+		}
+		if got := count("tx1"); got != 1 {
+			v.Violate(kindOf(0)+"-exception-count", hostCls+"/"+tag, "the event was delivered when the host's task request was received (the activity waits for its answer) but the exception path of boundary event 1 (%s) was requested %d times, expected 1", kindOf(0), got)
+			fail()
+		}
+		return
+	}
 	for i, a := range c.Hist {
 		if c.Race && i == n-2 {
 			// issue the last two actions concurrently
